@@ -278,6 +278,39 @@ def hostargs(lo: int, hi: int):
     return check
 
 
+def sandbox_idx(depth: int, full: int, lo: int, hi: int):
+    """The same assertion with the shape selected by a symbolic index and the evaluation untraced (the record's plain fields hold fixed
+    values): used for the bulk of the shapes, where re-tracing every selector on every path is the dominating cost. The selector objects
+    are shared by all paths, as a reader's selector is shared by all records."""
+    from crosshair.tracers import NoTracing
+    from flow.record.selector import Selector
+
+    batch = bad_shapes(depth, full)[lo:hi]
+    sels = [Selector(s) for s in batch]
+    n = len(batch)
+
+    def check(b0: bool, b1: bool, b2: bool, b3: bool, b4: bool, b5: bool, b6: bool) -> bool:
+        """
+        post: _
+        """
+        # the index is decoded from 7 symbolic bits (7 decisions per path instead of a linear chain of comparisons)
+        i = (1 if b0 else 0) + (2 if b1 else 0) + (4 if b2 else 0) + (8 if b3 else 0) + (16 if b4 else 0) + (32 if b5 else 0) + (64 if b6 else 0)
+        if i >= n:
+            return True
+        sel = sels[i]
+        with NoTracing():
+            rec = make_record()
+            before = repr(rec._packdict())
+            del LOG[:]
+            try:
+                sel.match(rec)
+            except Exception:  # noqa: BLE001 - refusal
+                return not LOG and repr(rec._packdict()) == before
+            return False
+
+    return check
+
+
 PURITY_FIELDS = [("string", "s"), ("varint", "n"), ("string[]", "tags"), ("stringlist", "sl"), ("dictlist", "dl"), ("path", "p"), ("digest", "dg"), ("bytes", "by"), ("record", "rr"), ("command", "cmd"), ("uri", "u"), ("net.ipaddress", "ip")]
 
 
@@ -306,6 +339,13 @@ def purity_programs():
         progs.append(f"r.{f} * 2 == 1")
         progs.append(f"(r.{f} | r.{f}) == 1 or (r.{f} & r.{f}) == 1")
         progs.append(f"r.{f} % 3 == 1")
+    for nocase in ("True", "False"):
+        for wb in ("True", "False"):
+            progs.append(f"field_contains(r, ['s', 'u'], r.tags, nocase={nocase}, word_boundary={wb})")
+            progs.append(f"field_contains(r, r.sl, r.tags, nocase={nocase}, word_boundary={wb})")
+        progs.append(f"field_equals(r, ['s'], r.tags, nocase={nocase})")
+        progs.append(f"field_equals(r, r.tags, r.sl, nocase={nocase})")
+    progs += ["field_regex(r, r.tags, 'a')", "field_contains(r, ['s'], r.rr.names, nocase=False, word_boundary=True)", "lower(r.tags) == upper(r.sl)", "names(r) == r.tags", "any(field_contains(r, ['s'], t, nocase=False, word_boundary=True) for t in [r.tags, r.sl])"]
     progs += ["'c' in r.tags + ['c']", "r.tags + ['c'] == ['Alpha', 'BETA', 'c']", "r.sl + r.tags == []", "r.tags * 2 == []", "r.dl + [{'x': 1}] == []", "r.rr.names + ['x'] == []", "r.by + r.by == r.by",
               "any(t + ['x'] for t in [r.tags, r.sl])", "r.tags + r.tags + r.tags == []", "str(r)", "repr(r)", "name(r)", "names(r)", "fields('string')", "has_field(r, 'tags')", "field_regex(r, ['s'], 'i')",
               "lower(r.rr.names) == ['in', 'ner']", "upper(r.tags) == ['ALPHA', 'BETA']", "field_contains(r, Type.string, ['mixed'])",
@@ -314,6 +354,7 @@ def purity_programs():
 
 
 def purity(lo: int, hi: int):
+    from crosshair.tracers import NoTracing
     from flow.record.selector import Selector
 
     progs = purity_programs()[lo:hi]
@@ -330,14 +371,16 @@ def purity(lo: int, hi: int):
         for j in range(n):
             if i == j:
                 sel = sels[j]
-        rec = purity_record()
-        pristine = purity_record()
-        before = repr(rec._packdict())
-        try:
-            sel.match(rec)
-        except Exception:  # noqa: BLE001
-            pass
-        return repr(rec._packdict()) == before and rec._pack() == pristine._pack() and repr(rec.rr._packdict()) == repr(pristine.rr._packdict())
+        with NoTracing():
+            rec = purity_record()
+            pristine = purity_record()
+            before = repr(rec._packdict())
+            for _ in range(2):  # a selector object serves many records: evaluate twice
+                try:
+                    sel.match(rec)
+                except Exception:  # noqa: BLE001
+                    pass
+            return repr(rec._packdict()) == before and rec._pack() == pristine._pack() and repr(rec.rr._packdict()) == repr(pristine.rr._packdict())
 
     return check
 
@@ -352,17 +395,24 @@ def classification_sanity():
 
 def obligations(tier, seed):
     depth, full = (2, 1) if tier == "quick" else (3, 2)
-    nbad = len(bad_shapes(depth, full))
-    size = 200 if tier == "quick" else 1500
     obs = [ob("side/classification", "side", "classification_sanity", {})]
+    # (a) with the record's plain field values symbolic: the shallow shapes (quick: depth 1, thorough: depth 2)
+    sd, sf = (1, 1) if tier == "quick" else (2, 1)
+    nsym = len(bad_shapes(sd, sf))
+    size = 200 if tier == "quick" else 400
+    for lo in range(0, nsym, size):
+        obs.append(ob(f"sandbox/d{sd}/{lo}", "xh", "sandbox", {"depth": sd, "full": sf, "lo": lo, "hi": min(lo + size, nsym)}, timeout=150 if tier == "quick" else 600, group="sandbox", bounds=f"n: all ints, s: all strings <= 2 chars; shapes {lo}..{min(lo + size, nsym)} of {nsym} hostile shapes at depth {sd}"))
+    # (b) the bulk: shape selected by a symbolic index, evaluation untraced
+    nbad = len(bad_shapes(depth, full))
+    size = 128
     for lo in range(0, nbad, size):
-        obs.append(ob(f"sandbox/d{depth}/{lo}", "xh", "sandbox", {"depth": depth, "full": full, "lo": lo, "hi": min(lo + size, nbad)}, timeout=150 if tier == "quick" else 600, group="sandbox", bounds=f"n: all ints, s: all strings <= 2 chars; shapes {lo}..{min(lo + size, nbad)} of {nbad} hostile shapes at depth {depth}"))
+        obs.append(ob(f"sandbox-idx/d{depth}/{lo}", "xh", "sandbox_idx", {"depth": depth, "full": full, "lo": lo, "hi": min(lo + size, nbad)}, timeout=120 if tier == "quick" else 400, group="sandbox-idx", bounds=f"shapes {lo}..{min(lo + size, nbad)} of {nbad} hostile shapes at depth {depth} (index symbolic, path-exhaustive)"))
     nh = len(hostile_arguments())
     for lo in range(0, nh, 60):
         obs.append(ob(f"hostargs/{lo}", "xh", "hostargs", {"lo": lo, "hi": min(lo + 60, nh)}, timeout=90 if tier == "quick" else 300, group="hostargs", bounds=f"allowed calls {lo}..{min(lo + 60, nh)} of {nh} with callables reached through attributes as arguments (index symbolic, path-exhaustive)"))
     np_ = len(purity_programs())
-    for lo in range(0, np_, 12):
-        obs.append(ob(f"purity/{lo}", "xh", "purity", {"lo": lo, "hi": min(lo + 12, np_)}, timeout=60, group="purity", bounds=f"programs {lo}..{min(lo + 12, np_)} of {np_}"))
+    for lo in range(0, np_, 40):
+        obs.append(ob(f"purity/{lo}", "xh", "purity", {"lo": lo, "hi": min(lo + 40, np_)}, timeout=60, group="purity", bounds=f"programs {lo}..{min(lo + 40, np_)} of {np_} (index symbolic, path-exhaustive)"))
     return obs
 
 
@@ -377,6 +427,11 @@ def replay(res):
     i = cex_args(res, ["i"]).get("i")
     if "sandbox" in gid:
         batch = bad_shapes(a["depth"], a["full"])[a["lo"] : a["hi"]]
+        if "sandbox-idx" in gid:
+            bits = cex_args(res, ["b0", "b1", "b2", "b3", "b4", "b5", "b6"])
+            i = sum((1 << k) for k in range(7) if bits.get(f"b{k}"))
+            if 0 <= i < len(batch):
+                batch = [batch[i]] + batch
         for j in range(len(batch)):
             src = batch[j]
             rec = make_record()
